@@ -25,6 +25,7 @@ import (
 	"os/exec"
 	"path/filepath"
 	"syscall"
+	"time"
 
 	"github.com/magefile/mage/mg"
 	"github.com/magefile/mage/sh"
@@ -42,6 +43,7 @@ type c15Req struct {
 	Se     string            `json:"se"`
 	Dump   string            `json:"dump"` // path of the helper child's report
 	Tmp    string            `json:"tmp"`  // directory for the capture files
+	Wait   string            `json:"wait"` // path: after the call wait (<= 60 s) for this file (written by the child's late descendant) before reading the captures
 	Kind   string            `json:"kind"` // raw: child | fatal | fatalf | plain | nil | custom
 	Code   int               `json:"code"`
 }
@@ -185,13 +187,20 @@ func c15Do(q c15Req) (res c15Res) {
 	if err != nil {
 		return c15Res{Error: err.Error()}
 	}
-	fout, err := os.Create(filepath.Join(q.Tmp, "c15-stdout"))
+	// fresh files per request: a late write of a descendant of an earlier request's child must not
+	// reach this request's captures
+	fout, err := ioutil.TempFile(q.Tmp, "c15-stdout-")
 	if err != nil {
 		return c15Res{Error: err.Error()}
 	}
-	ferr, err := os.Create(filepath.Join(q.Tmp, "c15-stderr"))
+	ferr, err := ioutil.TempFile(q.Tmp, "c15-stderr-")
 	if err != nil {
 		return c15Res{Error: err.Error()}
+	}
+	defer os.Remove(fout.Name())
+	defer os.Remove(ferr.Name())
+	if q.Wait != "" {
+		os.Remove(q.Wait)
 	}
 	oin, oout, oerr := os.Stdin, os.Stdout, os.Stderr
 	os.Stdin, os.Stdout, os.Stderr = fin, fout, ferr
@@ -240,11 +249,21 @@ func c15Do(q c15Req) (res c15Res) {
 	if res.Error != "" {
 		return res
 	}
+	if q.Wait != "" && json.Valid(c15PeekDump(q.Dump)) {
+		// the child ran and left a descendant behind: let it finish its late writes
+		for i := 0; i < 6000; i++ {
+			if _, err := os.Stat(q.Wait); err == nil {
+				break
+			}
+			time.Sleep(10 * time.Millisecond)
+		}
+		os.Remove(q.Wait)
+	}
 	c15FillErr(&res, rerr)
 	res.Text = c15Hex(text)
-	b, _ := ioutil.ReadFile(filepath.Join(q.Tmp, "c15-stdout"))
+	b, _ := ioutil.ReadFile(fout.Name())
 	res.OsStdout = hex.EncodeToString(b)
-	b, _ = ioutil.ReadFile(filepath.Join(q.Tmp, "c15-stderr"))
+	b, _ = ioutil.ReadFile(ferr.Name())
 	res.OsStderr = hex.EncodeToString(b)
 	res.BufOut = hex.EncodeToString(bo.Bytes())
 	res.BufErr = hex.EncodeToString(be.Bytes())
@@ -261,6 +280,14 @@ func c15FillErr(res *c15Res, err error) {
 	res.MgStatus = mg.ExitStatus(err)
 	res.ShStatus = sh.ExitStatus(err)
 	res.ShCmdRan = sh.CmdRan(err)
+}
+
+func c15PeekDump(p string) []byte {
+	if p == "" {
+		return nil
+	}
+	b, _ := ioutil.ReadFile(p)
+	return b
 }
 
 func c15ReadDump(p string) json.RawMessage {
